@@ -3,3 +3,5 @@ pub mod c19_pgp;
 pub mod c02_total;
 pub mod c04_c05_session;
 pub mod c08_lossy;
+pub mod c18_codecs;
+pub mod c20_cycles;
